@@ -28,7 +28,9 @@
 (*         the strict pass of Trace_Profile (the real bytes are the        *)
 (*         reference bytes: drift detection, not the verdict).             *)
 (* Part 5  the STREAM as a state machine; invariants ReadBack,             *)
-(*         CursorExact, TxNormalize, AllConsumed.                          *)
+(*         CursorExact, TxNormalize, AllConsumed; outputs handed back and  *)
+(*         kept by the caller while other streams are encoded and decoded  *)
+(*         (Keep / Peek / Again).                                          *)
 (***************************************************************************)
 EXTENDS Value
 
@@ -365,11 +367,13 @@ DecItemAt(fam, bareKind, b, p) ==
 VARIABLES stream,   \* the bytes produced so far
           items,    \* the items written: [fam, kind, tag, w, carried, len]
           cursor,   \* bytes consumed by the reader so far
-          rd        \* the items read back: [kind, r]
+          rd,       \* the items read back: [kind, r]
+          shelf,    \* the outputs the encoder handed to its caller earlier and the caller still holds: [stream, items]
+          objs      \* every object the reader handed to its caller so far: [kind, r]
 
-vars == <<stream, items, cursor, rd>>
+vars == <<stream, items, cursor, rd, shelf, objs>>
 
-Init == stream = <<>> /\ items = <<>> /\ cursor = 0 /\ rd = <<>>
+Init == stream = <<>> /\ items = <<>> /\ cursor = 0 /\ rd = <<>> /\ shelf = <<>> /\ objs = <<>>
 
 \* WriteStep / service.ToBytes / TxRecord.Write: the writer appended `bytes`
 \* for an item of `kind` holding the leaves w; carried = the fields those
@@ -382,24 +386,60 @@ Write(fam, kind, tag, w, carried, bytes) ==
   /\ fam # "bare" => bytes[1] = tag                         \* type-tagged: the tag goes first
   /\ stream' = stream \o bytes
   /\ items' = Append(items, [fam |-> fam, kind |-> kind, tag |-> tag, w |-> w, carried |-> carried, len |-> Len(bytes)])
-  /\ UNCHANGED <<cursor, rd>>
+  /\ UNCHANGED <<cursor, rd, shelf, objs>>
 
 \* ReadStep / service.ToObject / TxRecord.Read returned an item of `kind`
 \* holding the leaves r and left the cursor at cur
 Read(kind, r, cur) ==
   /\ Len(rd) < Len(items)
   /\ rd' = Append(rd, [kind |-> kind, r |-> r])
+  /\ objs' = Append(objs, [kind |-> kind, r |-> r])
   /\ cursor' = cur
-  /\ UNCHANGED <<stream, items>>
+  /\ UNCHANGED <<stream, items, shelf>>
 
 \* the same stream produced in one call (ToBytesStep), or taken out of a pack that carried it
 Whole(b) == b = stream /\ rd = <<>> /\ UNCHANGED vars
 
-\* a factory call
-Created(fam, tag, kind, reports) == kind # "nil" => reports = tag
-
 RECURSIVE SumLens(_, _)
 SumLens(its, k) == IF k = 0 THEN 0 ELSE SumLens(its, k - 1) + its[k].len
+
+(***************************************************************************)
+(* What the code hands back belongs to the caller.  A profile is encoded   *)
+(* when its transaction ends and decoded much later (it waits in a pack, a *)
+(* queue, a buffer) while the encoder and the decoder go on serving other  *)
+(* profiles: the bytes handed back for one stream are the concatenation of *)
+(* ITS steps for as long as the caller holds them, and an object handed    *)
+(* back by the reader is the item that stood in the stream, whatever is    *)
+(* encoded or decoded afterwards.                                          *)
+(***************************************************************************)
+\* the caller puts the output it was handed for the stream written so far aside (the slice ToBytesStep / TxRecord.ToBytes
+\* returned, the DataOutputX the items were written into, the pack SetProfile stored it in) and goes on with another stream
+Keep == /\ items # <<>> /\ rd = <<>>
+        /\ shelf' = Append(shelf, [stream |-> stream, items |-> items])
+        /\ stream' = <<>> /\ items' = <<>> /\ cursor' = 0
+        /\ UNCHANGED <<rd, objs>>
+
+\* the caller takes kept output h up again, after any number of later calls of the encoder and the decoder, and finds the
+\* bytes b in it: they are the bytes that were handed back (then they are read like any stream)
+Peek(h, b) == /\ h \in DOMAIN shelf
+              /\ Len(rd) = Len(items)                 \* the stream at hand, if any, has been read to its end
+              /\ b = shelf[h].stream
+              /\ stream' = shelf[h].stream /\ items' = shelf[h].items /\ cursor' = 0 /\ rd' = <<>>
+              /\ UNCHANGED <<shelf, objs>>
+
+SameRec(a, b) == DOMAIN a = DOMAIN b /\ \A f \in DOMAIN a : SameLeaf(a[f], b[f])
+\* the caller looks again at the j-th object the reader handed back in this history: type `kind`, leaves r
+Again(j, kind, r) == /\ j \in DOMAIN objs
+                     /\ kind = objs[j].kind
+                     /\ SameRec(r, objs[j].r)
+                     /\ UNCHANGED vars
+
+\* every kept output still reads as the items it was handed back for (an invariant of the model; on the real code the
+\* observation is the enabling condition of Peek)
+KeptWire == \A h \in DOMAIN shelf : Len(shelf[h].stream) = SumLens(shelf[h].items, Len(shelf[h].items))
+
+\* a factory call
+Created(fam, tag, kind, reports) == kind # "nil" => reports = tag
 
 \* ---- properties -----------------------------------------------------------
 ReadBackAt(i) == /\ rd[i].kind = items[i].kind
